@@ -52,6 +52,8 @@ async def call(api, op: str, a: Dict[str, Any], remote=None):
     if op in ("turn_on", "turn_on_timer"):
         return await api.control_device(Command.ON, a.get("minutes", 0))
     if op == "turn_off":
+        if "minutes" in a:
+            return await api.control_device(Command.OFF, a["minutes"])
         return await api.control_device(Command.OFF)
     if op == "set_auto_shutdown":
         return await api.set_auto_shutdown(timedelta(seconds=a["seconds"]))
@@ -158,7 +160,12 @@ def expect(op: str, a: Dict[str, Any], world: Dict[str, Any]):
     if op in ("get_shutter_state", "get_breeze_state"):
         return ("ok", [("get_state2", {})])
     if op == "turn_off":
-        return ("ok", [("control", {"on": False, "timer_s": 0})])
+        m = a.get("minutes", 0)
+        if m < 0:
+            return ("unspecified", "negative minutes")
+        if m * 60 >= 2 ** 32:
+            return ("reject", "timer beyond 32 bits")
+        return ("ok", [("control", {"on": False, "timer_s": m * 60})])
     if op in ("turn_on", "turn_on_timer"):
         m = a.get("minutes", 0)
         if m < 0:
@@ -240,6 +247,12 @@ def gen_args(op: str, r, world: Dict[str, Any], hostile: bool = True) -> Dict[st
         return {"minutes": r.randrange(1, lim)}
     if op == "turn_on":
         return {"minutes": 0}
+    if op == "turn_off":
+        # the caller's minutes are an argument like any other, whatever the flag
+        if hostile and r.random() < 0.5:
+            lim = 2 ** 32 // 60
+            return {"minutes": r.choice([1, 45, 90, 1440, lim - 1, lim, lim + 1, lim + r.randrange(2, 1000), r.randrange(1, lim)])}
+        return {}
     if op == "set_auto_shutdown":
         x = r.random()
         if not hostile:
